@@ -189,7 +189,7 @@ def check(pid, tier):
     if thorough:
         meshes = [m for m in itertools.product((1, 2, 3), repeat=3)] + [(4, 4, 4), (1, 1, 4), (4, 3, 2), (2, 4, 1)]
     else:
-        meshes = small + [(1, 1, 3), (3, 2, 1), (3, 3, 3)]
+        meshes = small + [(1, 1, 3), (3, 2, 1), (2, 3, 2)]
 
     # ---------------- spec: the Wannier90 procedure always ends with a stencil that satisfies C22
     st = run_mc("c22_pair", meshes, LATS, ["pair"])
@@ -213,22 +213,25 @@ def check(pid, tier):
 
     # ---------------- spec: the model of is_parallel_shell as coded (new shell inside the span of ONE selected shell)
     code_rules = ["span", "latt"]
-    st2 = run_mc("c22_code_rule", meshes, LATS, code_rules,
+    meshes2 = meshes if thorough else [(1, 1, 1), (2, 2, 2), (1, 1, 2), (1, 2, 2), (2, 1, 1), (1, 1, 3), (3, 2, 1)]
+    st2 = run_mc("c22_code_rule", meshes2, LATS, code_rules,
                  invariants=["SelFunctional", "SelNegClosed", "SelWhole", "SelComplete", "SelNeighbours", "SelShape"])
     ftable.spec_violation(rep, st2, "c22_code_rule")
     rep.add_tlc("c22_code_rule", st2)
     runs2 = runs_of(st2)
-    model_fail = sorted({(lat, N) for (lat, N, rule), states in runs2.items() if states[-1]["st"]["pc"] == "fail"})
+    # the literal model of the code is "latt" where the lattice has an integer Cartesian basis, else "span"
+    literal = {lat: ("latt" if any(k[0] == lat and k[2] == "latt" for k in runs2) else "span") for lat in LATS}
+    model_fail = sorted({(lat, N) for (lat, N, rule), states in runs2.items() if rule == literal[lat] and states[-1]["st"]["pc"] == "fail"})
     rep.part("c22_code_rule", runs=len(runs2),
-             note="'span'/'latt' model w90files.bkvectors.is_parallel_shell; runs that exhaust the search box without a stencil "
-                  "although the Wannier90 rule finds one are listed",
+             note="'span'/'latt' model w90files.bkvectors.is_parallel_shell (as intended / as written); listed: runs of the literal model that "
+                  "exhaust the search box without a stencil although the Wannier90 rule finds one",
              model_finds_no_stencil=[dict(lattice=lat, mesh=list(N)) for lat, N in model_fail])
 
-    # sensitivity: an off-by-one search box (range(-limit, limit)) must be rejected by the specification
-    st0 = run_mc("c22_truncbox", small[:4] + [(2, 2, 2)], ["cubic", "hex", "mono"], ["pair"], variant="truncbox", dump=False)
-    if not st0.get("violation"):
-        raise MachineryError("sensitivity self-test failed: MC_BShells with Variant=truncbox should violate an invariant")
-    rep.part("c22_truncbox", sensitivity_violation=st0["violation"][1])
+    # sensitivity: a completeness test that only looks at the diagonal of sum w b b^T must be rejected by the specification
+    st0 = run_mc("c22_diagonly", [(1, 1, 1), (2, 2, 2), (2, 1, 1)], ["cubic", "hex", "mono", "tri"], ["pair"], variant="diagonly", dump=False)
+    if not st0.get("violation") or st0["violation"][1] != "SelComplete":
+        raise MachineryError("sensitivity self-test failed: MC_BShells with Variant=diagonly should violate SelComplete")
+    rep.part("c22_diagonly", sensitivity_violation=st0["violation"][1])
 
     # ---------------- spec -> code: replay every state
     nrep = 0
@@ -291,7 +294,7 @@ def check(pid, tier):
                 sel = tmp
 
     # ---------------- find_bk_vectors end to end: a stencil must be returned wherever TLC proved that one exists in the box
-    which = {"pair": 0, "span": 0, "latt": 0, "none": 0}
+    which = {"pair": 0, "span": 0, "latt": 0, "none": 0, "code_rule_not_modelled_for_this_mesh": 0}
     nraise = 0
     for (lat, N), ok in sorted(exists.items()):
         L = lattices[lat]
@@ -315,6 +318,8 @@ def check(pid, tier):
                 if got == frozenset((n, tuple(stt["w"][j])) for j, sh in enumerate(stt["sel"]) for n in sh):
                     m = rule
                     break
+        if m == "none" and (lat, N, "span") not in runs2:
+            m = "code_rule_not_modelled_for_this_mesh"
         which[m] += 1
     rep.part("find_bk_vectors_vs_models", stencil_equals_model=which, raised=nraise,
              note="diagnostic only: which parallel-shell rule reproduces the stencil of the code (C22 does not prescribe the choice)")
